@@ -115,6 +115,14 @@ model::Profile profile_for_write(bool for_c01, int format) {
     p.order = static_cast<int>(choose(S_WORK, 3));
     p.way_locations = choose(S_WORK, 5) == 0;
     p.nasty_strings = choose(S_WORK, 4) != 0;
+    if (for_c01 && choose(S_WORK, 40) == 39) {
+        // block boundary: more than 8000 entities of one type, so that the PBF writer has to start a second block
+        p.exact_objects = 8000 + choose(S_WORK, 1200);
+        p.only_nodes = true;
+        p.max_tags = 1;
+        p.nasty_strings = false;
+        p.changesets = false;
+    }
     p.wild_locations = for_c01 && choose(S_WORK, 2) != 0;
     p.invalid_coordinates = format == 3;
     return p;
